@@ -57,7 +57,7 @@ CONSTANTS Keys, Callers,
           CanFail,        \* Resolve may return an error
           MaxRes,         \* successful resolves per behaviour (versions 1..MaxRes)
           MaxCalls,       \* GetInstance calls per caller
-          MaxWTicks, MaxRTicks,   \* watcher / refresh ticks per behaviour (-1: unbounded)
+          MaxWTicks, MaxRTicks,   \* watcher / refresh ticks per behaviour (0: unbounded)
           RefreshResets   \* TRUE: as written (refresh clears the expire flag)
 
 VARIABLES nres,   \* versions handed out so far
@@ -193,10 +193,10 @@ CallerStep(c) == \/ \E k \in Keys : Target(c, k)
 (* refresh(): for range time.Tick(RefreshInterval) { b.cache.Range(...) }                                      *)
 (* sync.Map.Range visits every key at most once per call and reads the map live: rf.todo = keys not visited yet *)
 
-Tick(n, max) == IF max = -1 THEN n ELSE n + 1
+Tick(n, max) == IF max = 0 THEN n ELSE n + 1
 RDone == \A k \in Keys : cache[k] # 0 => k \notin rf.todo
 
-RTick == /\ rf.at = "wait" /\ RDone /\ (MaxRTicks = -1 \/ rticks < MaxRTicks)
+RTick == /\ rf.at = "wait" /\ RDone /\ (MaxRTicks = 0 \/ rticks < MaxRTicks)
          /\ rf' = [rf EXCEPT !.todo = Keys] /\ rticks' = Tick(rticks, MaxRTicks)
          /\ Silent /\ UNCHANGED <<nres, ver, cache, ent, bal, flight, pc, left, wt, wticks>>
 
@@ -242,7 +242,7 @@ RefreshStep == RTick \/ (\E k \in Keys : RBegin(k)) \/ (\E n \in Counts : REndOk
 
 WDone == \A k \in Keys : cache[k] # 0 => k \notin wt.todo
 
-WTick == /\ WDone /\ (MaxWTicks = -1 \/ wticks < MaxWTicks)
+WTick == /\ WDone /\ (MaxWTicks = 0 \/ wticks < MaxWTicks)
          /\ wt' = [todo |-> Keys] /\ wticks' = Tick(wticks, MaxWTicks)
          /\ Silent /\ UNCHANGED <<nres, ver, cache, ent, bal, flight, pc, left, rf, rticks>>
 
